@@ -14,7 +14,7 @@ pub struct ScriptController;
 impl Controller for ScriptController {
     fn is_matching(request: &Request, _connection: &ConnectionInfo) -> bool {
         // query and fragment are not part of the path
-        request.method == METHOD.get && request.get_uri_path().unwrap_or(request.request_uri.to_string()) == "/script.js"
+        (request.method == METHOD.get || request.method == METHOD.head || request.method == METHOD.options) && request.get_uri_path().unwrap_or(request.request_uri.to_string()) == "/script.js"
     }
 
     fn process(_request: &Request, mut response: Response, _connection: &ConnectionInfo) -> Response {
